@@ -473,6 +473,10 @@ func (f Field) GetType() string {
 	case *FixedStringFieldAttribute, *DynamicStringFieldAttribute:
 		return "string"
 	case *ObjectFieldAttribute:
+		if c.RefPacket == nil {
+			// not resolved (yet, or the packet is not declared): the written type name
+			return c.PacketName
+		}
 		return c.RefPacket.Name
 	case *MatchFieldAttribute:
 		return "match"
